@@ -366,6 +366,13 @@ def _arith(op: ast.operator, a, b, node):
 
 
 def _compare(op: ast.cmpop, a, b, node):
+    if isinstance(op, (ast.Is, ast.IsNot)) and (a is None or b is None):
+        return (a is b) if isinstance(op, ast.Is) else (a is not b)
+    if isinstance(a, Mat) or isinstance(b, Mat):
+        shape = (a if isinstance(a, Mat) else b)
+        ar = a.rows if isinstance(a, Mat) else [[a] * len(r) for r in shape.rows]
+        br = b.rows if isinstance(b, Mat) else [[b] * len(r) for r in shape.rows]
+        return Mat([[_compare(op, x, y, node) for x, y in zip(r1, r2)] for r1, r2 in zip(ar, br)])
     if isinstance(a, Vec) or isinstance(b, Vec):
         n = len(a) if isinstance(a, Vec) else len(b)
         av = a.vals if isinstance(a, Vec) else [a] * n
@@ -673,6 +680,8 @@ class Evaluator:
                     left = right
                     continue
             r = _compare(op, left, right, n)
+            if isinstance(r, Mat):
+                return r
             if isinstance(r, Vec):
                 if len(n.ops) != 1:
                     raise Unsupported("chained vector comparison", n)
